@@ -177,6 +177,25 @@ def faultPoints (log : List DOp) : List (Nat × Nat) := Id.run do
     k := k + 1
   return pts.toList
 
+/-- replay of an operation log (oldest first) on a destination: the first `k` operations in full, `j` bytes of operation `k` -/
+def replay (pre : Bytes) (ops : List DOp) (k j : Nat) : Bytes := Id.run do
+  let mut c := pre
+  let mut pos := pre.length
+  let mut i := 0
+  for op in ops do
+    if i > k then break
+    match op with
+    | .write p _ _ =>
+      let q := if i == k then p.take j else p
+      c := overwrite c pos q
+      pos := pos + q.length
+    | .writeAt p off _ _ =>
+      let q := if i == k then p.take j else p
+      c := overwrite c off q
+    | .seek dlt _ => if i < k then pos := ((pos : Int) + dlt).toNat
+    i := i + 1
+  return c
+
 def execWrX (args : List String) : String :=
   match parse args true with
   | none => "bad-op"
@@ -191,6 +210,8 @@ def execWrX (args : List String) : String :=
       let tail := match ci with
         | .ok _ => "/" ++ hex o.d.content
         | _ => ""
+      -- self-check of the model: the single-fault run leaves the crash state of the healthy run's operation sequence
+      let tail := if o.d.content == replay c.pre base.d.log.reverse k j && o.d.log.length == k + 1 then tail else tail ++ "/not-a-crash-prefix"
       s!" {k}.{j}={joinOr (o.results.toList.map resName)}/{joinOr (o.hits.toList.map toString)}/{hexN 16 (fnv o.d.content).toNat}/{showCi ci}{tail}"
     s!"n={pts.length}{String.join entries}"
 
@@ -301,6 +322,7 @@ def propWrX (args : List String) (impl : String) : String :=
           if kj == "n" then none else
           match v.splitOn "/" with
           | r :: hit :: _ :: ci :: rest =>
+            if rest.contains "not-a-crash-prefix" then some s!"fail:not-a-crash-prefix@{kj}" else
             (c11Run c (listOf r) (listOf hit) ci (rest.head?.bind unhex)).map fun e => s!"{e}@{kj}"
           | _ => some "fail:answer"
         | _ => some "fail:answer"
